@@ -907,6 +907,12 @@ func (x *extractor) stmt(s ast.Stmt) []Node {
 		return []Node{&BranchN{Pos: s.Pos(), Tok: s.Tok}}
 	case *ast.LabeledStmt:
 		return x.stmt(s.Stmt)
+	case *ast.SendStmt:
+		return []Node{&OtherN{Pos: s.Pos(), Text: "send " + x.expr(s.Chan) + " <- " + x.expr(s.Value), Stmt: s}}
+	case *ast.DeferStmt:
+		return []Node{&OtherN{Pos: s.Pos(), Text: "defer " + x.expr(s.Call), Stmt: s}}
+	case *ast.GoStmt:
+		return []Node{&OtherN{Pos: s.Pos(), Text: "go " + x.expr(s.Call), Stmt: s}}
 	}
 	return []Node{&OtherN{Pos: s.Pos(), Text: fmt.Sprintf("%T", s), Stmt: s}}
 }
